@@ -57,18 +57,34 @@ func subsets(pool []string, size int) [][]string {
 }
 
 type c05Def struct {
-	def   *ph.Def
-	names []string
+	def    *ph.Def
+	names  []string
+	attach bool // the queried text carries an attached value (`--text=val`)
 }
+
+// names whose beginnings read as numbers (`inf`, `infinity`, `nan`, `1e`): still option names
+var c05Pool2 = []string{"info", "infile", "infinity-x", "nanny"}
 
 func defsC05(maxSize int) []c05Def {
 	var out []c05Def
-	for size := 2; size <= maxSize; size++ {
-		for _, names := range subsets(c05Pool, size) {
+	for size := 2; size <= maxSize+3; size++ {
+		pool, sz := c05Pool, size
+		if size > maxSize {
+			pool, sz = c05Pool2, size-maxSize+1 // sizes 2..4 of the second pool
+		}
+		size := sz
+		for _, names := range subsets(pool, size) {
 			for _, part := range setPartitions(size) {
-				for _, kind := range []ph.Kind{ph.Bool, ph.Str} {
+				for km := 0; km < 3; km++ { // all flags, all strings, or flags and strings alternating (an attached value does not narrow the candidates)
+					if km == 2 && (size > 3 || len(part) < 2) {
+						continue
+					}
 					var opts []ph.OptDef
-					for _, block := range part {
+					for bi, block := range part {
+						kind := ph.Bool
+						if km == 1 || (km == 2 && bi%2 == 1) {
+							kind = ph.Str
+						}
 						o := ph.OptDef{Name: names[block[0]], Kind: kind, DefS: "D"}
 						for _, i := range block[1:] {
 							o.Aliases = append(o.Aliases, names[i])
@@ -83,7 +99,7 @@ func defsC05(maxSize int) []c05Def {
 							d := &ph.Def{Mode: mode, RequireOrder: ro, Help: "help", Root: ph.CmdDef{Name: "prog", Opts: opts,
 								Cmds: []*ph.CmdDef{{Name: "cmd", Opts: []ph.OptDef{{Name: "vz", Kind: ph.Bool}}},
 									{Name: "w", Unset: true, Unknown: 3, Opts: []ph.OptDef{{Name: "vew", Kind: ph.Bool}, {Name: "vewy", Kind: ph.Bool}}}}}} // a wrapper as documented (UnsetOptions + Pass) with two own names sharing a prefix
-							out = append(out, c05Def{d, names})
+							out = append(out, c05Def{d, names, km >= 1})
 						}
 					}
 				}
@@ -148,8 +164,8 @@ func init() {
 	parserJudges["C05"] = judgeC05
 	register(&Check{
 		ID:        "C05",
-		QuickSecs: 300, ThoroSecs: 900,
-		Rule: "input-space exploration over definitions: all subsets of size 2-4 of the name pool {v, ve, ver, verbose, vex, x, é, ê, VE} x all partitions of the subset into options (names of one block are aliases) x option kind {bool, string} x 3 modes x require-order on/off, " +
+		QuickSecs: 900, ThoroSecs: 900,
+		Rule: "input-space exploration over definitions: all subsets of size 2-4 of the name pool {v, ve, ver, verbose, vex, x, é, ê, VE} and of the pool {info, infile, infinity-x, nanny} (names whose beginnings read as numbers) x all partitions of the subset into options (names of one block are aliases) x option kind {all bool, all string, alternating} x 3 modes x require-order on/off, " +
 			"each queried with every prefix of every name plus non-matching texts, in long and short spelling, at the root, inside a command that inherits the options and adds one of its own and inside a wrapper command (UnsetOptions + Pass) with two own names sharing a prefix, alone and after a token that sets another option; " +
 			"effect, CalledAs, ambiguity error text (sorted candidate list) and unknown-option error compared with the reference matcher; on ambiguity no option value may change; distinct_nontrivial = distinct in-domain cases",
 		Assume: []string{"names outside the pool are not covered"},
@@ -172,7 +188,7 @@ func init() {
 				}
 				cd := defs[u]
 				res.States++
-				isStr := cd.def.Root.Opts[0].Kind == ph.Str
+				isStr := cd.attach
 				for _, text := range c05Texts(cd.names) {
 					for _, dash := range []string{"--", "-"} {
 						tok := dash + text
@@ -205,7 +221,7 @@ func init() {
 								argv = []string{"-q" + text}
 							default:
 								first := "--" + cd.def.Root.Opts[len(cd.def.Root.Opts)-3].Name
-								if isStr {
+								if cd.def.Root.Opts[len(cd.def.Root.Opts)-3].Kind == ph.Str {
 									first += "=first"
 								}
 								argv = []string{first, tok}
